@@ -225,12 +225,74 @@ def _origin_ord(c: Ctx, f: Func, call: ast.Call, arg: ast.AST, depth: int = 0) -
 
 
 # ------------------------------------------------------------------------------------------------ INT / UNIPRED
-UNI_PREDS = {"isdigit", "isdecimal", "isnumeric", "isalpha", "isalnum", "isspace", "isupper", "islower", "istitle", "isidentifier", "isprintable"}
+UNI_PREDS = {"isdigit", "isdecimal", "isnumeric", "isalpha", "isalnum", "isspace", "isupper", "islower", "istitle", "isidentifier", "isprintable",
+             }
+UNI_SPLIT = {"splitlines"}
 _POSITIVE = "def f(state, pos):\n    ch = state.src[pos]\n    if ch.isdigit():\n        return int(ch)\n    return -1\n"
 
 
-def _uni_pred_calls(fn: ast.AST) -> list[ast.Call]:
-    return [n for n in ast.walk(fn) if isinstance(n, ast.Call) and isinstance(n.func, ast.Attribute) and n.func.attr in UNI_PREDS and not n.args]
+def _uni_pred_calls(fn: ast.AST, names: set[str] = UNI_PREDS) -> list[ast.Call]:
+    return [n for n in ast.walk(fn) if isinstance(n, ast.Call) and isinstance(n.func, ast.Attribute) and n.func.attr in names
+            and (not n.args or n.func.attr == "splitlines")]
+
+
+def rule_unisplit(c: Ctx) -> RuleResult:
+    r = RuleResult("UNISPLIT", "source text is split into lines at LF only: no Unicode-aware `str.splitlines()` (which also splits at VT, FF, "
+                               "FS, GS, RS, NEL, U+2028, U+2029) is applied to the source in the parse phase")
+    planted = _uni_pred_calls(ast.parse("def f(state):\n    return state.src.splitlines()\n"), UNI_SPLIT)
+    if len(planted) != 1:
+        raise AnchorError("UNISPLIT self-example did not match: the lint is broken")
+    r.add("self-example", "<built-in>", "-", "state.src.splitlines()", "discharged", "trivial: the planted positive example is recognised (the lint is alive)")
+    nf = 0
+    for f in sorted(c.cg.parse_phase(), key=lambda x: x.qual):
+        nf += 1
+        rd0 = None
+        for call in _uni_pred_calls(f.node, UNI_SPLIT):
+            if not any(x is call for x in own_nodes(f.node)):
+                continue
+            rd0 = rd0 or Reaching(c.cfg(f))
+            if not _is_source_text(c, f, call.func.value, call, rd0):
+                continue
+            r.add(f"{f.short}|splitlines|{alpha(f, call)}", c.where(f, call), f.short, U(call)[:70], "violation",
+                  "`.splitlines()` on source text also breaks lines at VT, FF, FS/GS/RS, NEL, U+2028 and U+2029, which normalisation leaves "
+                  "alone: line numbers (maps), line structure and single-line text change for inputs containing them")
+    r.functions = nf
+    r.add("scan", "markdown_it:0", "-", f"{nf} functions of the parse phase scanned", "discharged", "no Unicode-aware line splitting of source text")
+    r.floor = 2
+    return r
+
+
+def _is_source_text(c: Ctx, f: Func, e: ast.AST, at: ast.AST, rd: Reaching, depth: int = 0) -> bool:
+    """Does e denote (a character / slice of) the source text - as opposed to a decoded or computed string?"""
+    if depth > 4:
+        return False
+    if isinstance(e, ast.Attribute) and e.attr == "src":
+        return c.tf.scope(f).type(e.value) in ("StateBlock", "StateInline", "StateCore")
+    if isinstance(e, ast.Subscript):
+        return _is_source_text(c, f, e.value, at, rd, depth + 1)
+    if isinstance(e, ast.Name):
+        ds = rd.at_ast(at, e.id)
+        if not ds:
+            return False
+        for d in ds:
+            if d.kind == "param":
+                # a str parameter named like the scanners' source argument
+                if e.id in ("src", "string") and c.tf.scope(f).type(e) == "str":
+                    continue
+                return False
+            if d.kind == "for" and isinstance(d.stmt, ast.For):
+                it = d.stmt.iter
+                if isinstance(it, ast.Call) and U(it.func) == "enumerate" and it.args:
+                    it = it.args[0]
+                if not _is_source_text(c, f, it, d.stmt.iter, rd, depth + 1):
+                    return False
+                continue
+            if d.value is None or not _is_source_text(c, f, d.value, d.stmt, rd, depth + 1):
+                return False
+        return True
+    if isinstance(e, ast.Call) and isinstance(e.func, ast.Attribute) and e.func.attr in ("getLines",):
+        return True
+    return False
 
 
 def _digit_group_ok(pattern: str) -> bool:
@@ -277,12 +339,16 @@ def rule_intarg(c: Ctx) -> RuleResult:
     r.add("self-example", "<built-in>", "-", "ch.isdigit()", "discharged", "trivial: the planted positive example is recognised (the lint is alive)")
     regexes = {(m.rel, name): (pat, flags) for (m, name, pat, flags, node) in c.p.regex_constants() if name}
     for f in sorted(c.cg.parse_phase(), key=lambda x: x.qual):
+        rd0 = None
         for call in _uni_pred_calls(f.node):
-            if c.p.func_of_node.get(f.node) is not f:
+            if c.p.func_of_node.get(f.node) is not f or not any(x is call for x in own_nodes(f.node)):
                 continue
             recv_t = c.tf.scope(f).type(call.func.value)
             if recv_t not in ("str", None):
                 continue
+            rd0 = rd0 or Reaching(c.cfg(f))
+            if not _is_source_text(c, f, call.func.value, call, rd0):
+                continue          # a decoded / computed string, not characters of the source
             r.add(f"{f.short}|unipred|{alpha(f, call)}", c.where(f, call), f.short, U(call), "violation",
                   f"`.{call.func.attr}()` classifies by Unicode category ('²'.isdigit() is True, '\\x1c'.isspace() is True): the rules' grammar "
                   f"is defined on ASCII classes, and a character admitted here reaches code that assumes ASCII (int() raises ValueError)")
